@@ -64,6 +64,32 @@ theorem validated_plain_method_must_succeed (c : Config) (h : validated c = true
   unfold prediction
   simp [h, he, hg, not_le.mpr hN]
 
+/-- in general position (generic data class, d within the rank of the method's problem, interior parameters, no index
+    site out of range) the only permitted observation is the `N x d` embedding: no exception class -/
+-- [M]
+theorem general_position_must_succeed (c : Config) (data : DataClass) (h : mustBeFinite c data = true) :
+    (predictionOn c data).throws = [] ∧ (predictionOn c data).ok = some (okShape c) := by
+  have hv : validated c = true := by
+    simp only [mustBeFinite, Bool.and_eq_true] at h; exact h.1.1.1.1.2
+  have hok : (prediction c).ok.isSome = true := by
+    simp only [mustBeFinite, Bool.and_eq_true] at h; exact h.2
+  have hN := validated_pos hv
+  refine ⟨by simp [predictionOn, h], ?_⟩
+  simp only [predictionOn, h, if_true]
+  unfold prediction at hok ⊢
+  split_ifs at hok ⊢ <;> simp_all
+
+/-- outside general position `predictionOn` is `prediction`; its classes are documented in every case -/
+-- [M]
+theorem predictionOn_errors_documented (c : Config) (data : DataClass) (e : Err) (h : e ∈ (predictionOn c data).throws) :
+    e.name ∈ documentedThrows ∨ e.name = emptyInputThrows := by
+  unfold predictionOn at h
+  split_ifs at h
+  · simp at h
+  · exact prediction_errors_documented c e h
+
+example : mustBeFinite { defaultConfig .klle .brute .dense 17 3 with k := 6 } .generic = true := by decide +kernel
+
 example : validated (defaultConfig .hlle .brute .dense 17 3) = true := by decide +kernel
 example : (prediction (defaultConfig .mds .brute .dense 17 3)).ok = some (17, 2) := by decide +kernel
 example : (prediction (defaultConfig .le .brute .randomized 17 3)).throws = [.unsupported_method_error] := by decide +kernel
@@ -577,6 +603,13 @@ theorem no_foreign_throw_reachable (N : Int) : ms_wrong_size_guard N (neighbors_
 theorem never_exits_unless_alloc_fails :
     ∀ s ∈ exitSites, s.2.2.2.2 = true ∧ s.2.2.2.1 ≠ [] ∧ ∀ v ∈ s.2.2.2.1, v.2 = "malloc" ∨ v.2 = "calloc" := by
   decide
+
+/-- every size handed to `malloc` / `calloc` in the t-SNE code and to `reserve` in routines/ multiplies run-time integers in
+    `size_t` / `ptrdiff_t` (the first factor is cast or already wide): no `int` product can wrap before the allocation.
+    (Index arithmetic itself is over unbounded `Int` in this file: 32-bit wrap-around of `int` indices for huge N is
+    NOT modelled, see the PARTIAL list.) -/
+-- [S]
+theorem alloc_sizes_computed_wide : ∀ s ∈ allocSites, s.2.2 = true := by decide
 
 /-- the `assert`s of the library (active unless NDEBUG) are exactly these … -/
 -- [S]
